@@ -139,8 +139,38 @@ def creation_races():
     return {'reproduced': False}
 
 
+PARSER_PROBES = [
+    'resources=VCPU:abc', 'resources=VCPU', 'resources=VCPU:', 'resources=:1',
+    'resources=VCPU:1:2', 'resources=VCPU:1,', 'resources=VCPU:-1',
+    'resources=VCPU:1.5', 'resources=', 'member_of=in:', 'member_of=!',
+    'member_of=in:abc', 'member_of=!in:', 'member_of=', 'in_tree=xyz',
+    'in_tree=', 'member_of=in:,', 'member_of=abc&member_of=!abc',
+]
+
+
+def parser_probes():
+    """malformed values for the parameters the string-level parsers handle"""
+    tried = 0
+    with Placement() as p:
+        corpus.prepare(p)
+        for q in PARSER_PROBES:
+            for path in ('/resource_providers', '/allocation_candidates'):
+                qq = q if 'resources=' in q or path == '/resource_providers' \
+                    else 'resources=VCPU:1&' + q
+                r = p.req('GET', '%s?%s' % (path, qq), version='1.39', **ADMIN)
+                tried += 1
+                if r.status_int >= 500:
+                    return {'reproduced': True, 'tried': tried, 'witness': {
+                        'request': ['GET', path, qq], 'status': r.status_int,
+                        'observed': 'a malformed query parameter is answered '
+                                    '%d' % r.status_int}}
+    return {'reproduced': False, 'tried': tried}
+
+
 def replay(info, model):
     sig = info.get('signature', '')
+    if info.get('parser'):
+        return parser_probes()
     if sig.startswith('ensure_consumer raises'):
         return creation_races()
     op = info.get('operation', '')
